@@ -1392,3 +1392,28 @@ def preview_parameters_are_not_sql_literals(case, outcome, atoms):
     if not trigger:
         return atoms
     return [a for a in atoms if not (a[0] == 'preview_differs_from_execution' and a[2] == a[3])]
+
+
+# ---------------------------------------------------------------------------
+# C15
+# ---------------------------------------------------------------------------
+
+@explainer
+def purge_deletes_models_in_signature_order(case, outcome, atoms):
+    """F-C01-3 for purges / DeleteApplication: the app's models are deleted in
+    signature order; when a model refers to another model of the same app that
+    was deleted before it, building its MockModel raises
+    MissingSignatureError and the whole purge fails."""
+    from . import specs as S
+    spec = case.get('spec') or {}
+    victim = case.get('victim')
+    app = (spec.get('apps') or {}).get(victim) or {'models': {}}
+    trigger = False
+    for n, m in app['models'].items():
+        for f in m['fields']:
+            if f['target'] and f['target'][0] == victim and f['target'][1] != n:
+                trigger = True
+    if not trigger:
+        return atoms
+    return [a for a in atoms if not (a[0] == 'run_failed' and
+                                     'Unable to find a model signature' in str(a[4]))]
